@@ -38,7 +38,7 @@ m = {
     "hooks": {
         "guard": "OPM_COMMON_VERIF",
         "enable": "checks build /repo out of tree in /verif/.build/opm with -DOPM_COMMON_VERIF in CMAKE_CXX_FLAGS (lib/vlib.py: cmake_configure)",
-        "baseline_off_cmd": "cmake --build /repo/_build -j16 && ctest --test-dir /repo/_build -j8 --timeout 900",
+        "baseline_off_cmd": "cmake --build /repo/_build -j16 -- -k 0 ; ctest --test-dir /repo/_build -j8 --timeout 900",
         "source_commits": HOOK_COMMITS,
         "add_only": True,
     },
